@@ -212,6 +212,7 @@ typedef struct pv_world {
     uint64_t fail_mask; int fail_mask_n;
     int reuse_mode;                 /* 1: the most recently freed block is handed out again by the next request of the same size (address reuse) */
     void* cache_ptr; void* cache_base; size_t cache_size;
+    int foreign_passthrough;        /* 1: the table pairs libc malloc (alloc NULL) with the injected free: unknown blocks are released with libc free */
     int align8_mode;                /* 1: blocks are 8-byte aligned but not 16-byte aligned (all that the seed object needs) */
     int yield_pct;                  /* C20: probability of sched_yield inside callbacks */
     pv_rng yield_rng;
@@ -302,6 +303,8 @@ int pv_overlap(int a, int b, const unsigned** idx_out);
 bool pv_gen_ambiguous(pv_rng* r, int a, int b, unsigned coin, unsigned enabled, unsigned d[16], pv_mseed* seed_out);
 /* checksum-valid, loadable phrase of language L whose decomposed form (words joined by single spaces) is exactly
  * `target` bytes long; returns false if the search fails (target unreachable or unlucky) */
+/* checksum-valid loadable phrase whose 16 words all come from `set` (n indices of language L) */
+bool pv_gen_from_set(pv_rng* r, const unsigned* set, int n, unsigned coin, unsigned enabled, unsigned d[16], pv_mseed* seed_out);
 bool pv_gen_exact_length(pv_rng* r, const pv_mlang* L, unsigned coin, long target, unsigned enabled, unsigned d[16], pv_mseed* seed_out);
 void pv_lang_length_range(const pv_mlang* L, long* min_total, long* max_total);
 /* the expected KDF stub output for given arguments (mode 0) */
